@@ -9,10 +9,12 @@ verus! {
 /*@include shims/collections.rs @*/
 /*@include shims/control_flow_try.rs @*/
 /*@include shims/format_opaque.rs @*/
+/*@include shims/vec_iter_chain.rs @*/
 
 pub mod env {
     use vstd::prelude::*;
     use core::ops::ControlFlow;
+    use super::unit::{ProofKind, ProofSourceAmount};
 
     // ---- the id newtypes, verbatim from their crates
     /*@item radix-common/src/data/manifest/model/manifest_bucket.rs :: struct ManifestBucket
@@ -46,18 +48,17 @@ pub mod env {
     #[verifier::external_body] pub struct NonFungibleLocalId { x: u8 }
     #[verifier::external_body] #[derive(Clone, Copy)] pub struct IntentHash { x: u8 }
     #[verifier::external_body] pub struct EncodeError { x: u8 }
+    #[verifier::external_body] pub struct ManifestValue { x: u8 }
+    #[verifier::external_body] pub struct AccessRule { x: u8 }
+    #[verifier::external_body] pub struct ManifestResourceConstraints { x: u8 }
+    #[verifier::external_body] pub struct ManifestResourceConstraint { x: u8 }
+    #[verifier::external_body] #[derive(Clone, Copy)] pub struct ManifestExpression { x: u8 }
     #[verifier::external_body] pub struct DecodeError { x: u8 }
 
-    /*@item radix-transactions/src/validation/id_validator.rs :: enum ProofKind
-    @derive PartialEq, Eq
-    @*/
     /*@item radix-transactions/src/manifest/manifest_instruction_effects.rs :: enum InvocationKind
     @derive Clone, Copy
     @*/
     /*@item radix-transactions/src/manifest/manifest_instruction_effects.rs :: enum BucketSourceAmount
-    @derive Clone, Copy
-    @*/
-    /*@item radix-transactions/src/manifest/manifest_instruction_effects.rs :: enum ProofSourceAmount
     @derive Clone, Copy
     @*/
     /*@item radix-transactions/src/manifest/manifest_instruction_effects.rs :: enum BucketDestination
@@ -67,6 +68,31 @@ pub mod env {
     @derive Clone, Copy
     @*/
     /*@item radix-transactions/src/manifest/manifest_instruction_effects.rs :: enum AddressReservationDestination
+    @derive Clone, Copy
+    @*/
+
+    /*@item radix-transactions/src/manifest/manifest_instruction_effects.rs :: enum ExpressionDestination
+    @derive Clone, Copy
+    @*/
+    /*@item radix-transactions/src/manifest/manifest_instruction_effects.rs :: enum BlobDestination
+    @derive Clone, Copy
+    @*/
+    /*@item radix-transactions/src/manifest/manifest_instruction_effects.rs :: enum VerificationKind
+    @derive Clone, Copy
+    @*/
+    /*@item radix-transactions/src/manifest/manifest_instruction_effects.rs :: enum WorktopAssertion
+    @derive Clone, Copy
+    @*/
+    /*@item radix-transactions/src/manifest/manifest_instruction_effects.rs :: enum NextCallAssertion
+    @derive Clone, Copy
+    @*/
+    /*@item radix-transactions/src/manifest/manifest_instruction_effects.rs :: enum BucketAssertion
+    @derive Clone, Copy
+    @*/
+    /*@item radix-transactions/src/manifest/manifest_instruction_effects.rs :: enum ResourceAssertion
+    @derive Clone, Copy
+    @*/
+    /*@item radix-transactions/src/manifest/manifest_instruction_effects.rs :: enum ManifestInstructionEffect
     @derive Clone, Copy
     @*/
 
@@ -111,6 +137,8 @@ pub mod env {
     /*@item radix-transactions/src/manifest/static_manifest_interpreter.rs :: struct OnNewNamedAddress
     @*/
     /*@item radix-transactions/src/manifest/static_manifest_interpreter.rs :: struct OnNewIntent
+    @*/
+    /*@item radix-transactions/src/manifest/static_manifest_interpreter.rs :: struct OnFinish
     @*/
 
     // ---- the object-name table of a manifest (manifest_naming.rs): pure look-ups, modelled as
@@ -163,16 +191,55 @@ pub mod env {
         spec fn answer_consume_bucket(&self, bucket: ManifestBucket, state: BucketState, destination: BucketDestination) -> ControlFlow<Self::Output>;
         fn on_consume_bucket(&mut self, details: OnConsumeBucket) -> (r: ControlFlow<Self::Output>)
             ensures r == old(self).answer_consume_bucket(details.bucket, *details.state, details.destination);
+
+        spec fn answer_new_proof(&self, proof: ManifestProof, state: ProofState) -> ControlFlow<Self::Output>;
+        fn on_new_proof(&mut self, details: OnNewProof) -> (r: ControlFlow<Self::Output>)
+            ensures r == old(self).answer_new_proof(details.proof, *details.state);
+
+        spec fn answer_consume_proof(&self, proof: ManifestProof, state: ProofState, destination: ProofDestination) -> ControlFlow<Self::Output>;
+        fn on_consume_proof(&mut self, details: OnConsumeProof) -> (r: ControlFlow<Self::Output>)
+            ensures r == old(self).answer_consume_proof(details.proof, *details.state, details.destination);
+
+        spec fn answer_new_address_reservation(&self, address_reservation: ManifestAddressReservation, state: AddressReservationState) -> ControlFlow<Self::Output>;
+        fn on_new_address_reservation(&mut self, details: OnNewAddressReservation) -> (r: ControlFlow<Self::Output>)
+            ensures r == old(self).answer_new_address_reservation(details.address_reservation, *details.state);
+
+        spec fn answer_consume_address_reservation(&self, address_reservation: ManifestAddressReservation, state: AddressReservationState,
+                                                   destination: AddressReservationDestination) -> ControlFlow<Self::Output>;
+        fn on_consume_address_reservation(&mut self, details: OnConsumeAddressReservation) -> (r: ControlFlow<Self::Output>)
+            ensures r == old(self).answer_consume_address_reservation(details.address_reservation, *details.state, details.destination);
+
+        spec fn answer_new_named_address(&self, named_address: ManifestNamedAddress, state: NamedAddressState,
+                                         package_address: &PackageAddress, blueprint_name: &str) -> ControlFlow<Self::Output>;
+        fn on_new_named_address(&mut self, details: OnNewNamedAddress) -> (r: ControlFlow<Self::Output>)
+            ensures r == old(self).answer_new_named_address(details.named_address, *details.state, details.package_address, details.blueprint_name);
+
+        spec fn answer_new_intent(&self, intent: ManifestNamedIntent, state: IntentState) -> ControlFlow<Self::Output>;
+        fn on_new_intent(&mut self, details: OnNewIntent) -> (r: ControlFlow<Self::Output>)
+            ensures r == old(self).answer_new_intent(details.intent, *details.state);
+
+        spec fn answer_finish(&self) -> ControlFlow<Self::Output>;
+        fn on_finish(&mut self, details: OnFinish) -> (r: ControlFlow<Self::Output>)
+            ensures r == old(self).answer_finish();
     }
 }
 
 pub mod unit {
     use vstd::prelude::*;
     use core::ops::ControlFlow;
+    use vstd::set_lib::set_int_range;
     use super::rt::*;
     use super::colls::*;
+    use super::vec_iter::*;
     use super::env::*;
+    use super::env::Decimal;
 
+    /*@item radix-transactions/src/validation/id_validator.rs :: enum ProofKind
+    @derive PartialEq, Eq
+    @*/
+    /*@item radix-transactions/src/manifest/manifest_instruction_effects.rs :: enum ProofSourceAmount
+    @derive Clone, Copy
+    @*/
     /*@item radix-transactions/src/manifest/static_manifest_interpreter.rs :: struct ValidationRuleset
     @*/
     /*@item radix-transactions/src/manifest/static_manifest_interpreter.rs :: enum NextInstructionRequirement
@@ -182,24 +249,145 @@ pub mod unit {
 
     // ------------------------------------------------------------------------------------------
     // Oracle (from the property statement): the lifecycle automaton over ids.
+    //   An id exists ("created") once it has been handed out; it is LIVE from its creation until it is
+    //   consumed, and a consumed id never becomes live again. A proof has a kind (from a bucket / from
+    //   the auth zone); a bucket is LOCKED while some live proof was created from it. Creating a proof
+    //   from a bucket needs the bucket live; consuming a bucket needs it live and unlocked; cloning or
+    //   consuming a proof needs the proof live. Named addresses and intents are never consumed.
     // ------------------------------------------------------------------------------------------
     pub type Out<V> = <V as ManifestInterpretationVisitor>::Output;
+
+    impl<'a> ProofSourceAmount<'a> {
+        /// oracle for the kind of a proof: the three `Bucket*` sources come from that bucket
+        pub open spec fn kind(&self) -> ProofKind {
+            match *self {
+                ProofSourceAmount::BucketAllOf { bucket } => ProofKind::BucketProof(bucket),
+                ProofSourceAmount::BucketAmount { bucket, .. } => ProofKind::BucketProof(bucket),
+                ProofSourceAmount::BucketNonFungibles { bucket, .. } => ProofKind::BucketProof(bucket),
+                _ => ProofKind::AuthZoneProof,
+            }
+        }
+
+        /*@fn radix-transactions/src/manifest/manifest_instruction_effects.rs :: impl<'a> ProofSourceAmount<'a> :: fn proof_kind
+        @sig
+            ensures ret == self.kind(),
+        @*/
+    }
+
+    /// proof number `i` is live and was created from bucket `b`
+    pub open spec fn live_proof_of(ps: Seq<ProofState>, i: int, b: ManifestBucket) -> bool {
+        0 <= i < ps.len() && ps[i].consumed_at is None && ps[i].source_amount.kind() == ProofKind::BucketProof(b)
+    }
+    /// the live proofs that were created from bucket `b`
+    pub open spec fn proofs_of(ps: Seq<ProofState>, b: ManifestBucket) -> Set<int> {
+        set_int_range(0, ps.len() as int).filter(|i: int| live_proof_of(ps, i, b))
+    }
+    /// ghost lock state of a bucket: some live proof refers to it
+    pub open spec fn locked(ps: Seq<ProofState>, b: ManifestBucket) -> bool {
+        exists|i: int| live_proof_of(ps, i, b)
+    }
+    /// effect of creating one more proof of kind `k` on the bucket table: exactly that bucket's lock counter + 1
+    pub open spec fn buckets_after_new_proof<'a>(bs: Seq<BucketState<'a>>, k: ProofKind) -> Seq<BucketState<'a>> {
+        match k {
+            ProofKind::BucketProof(b) => bs.update(b.0 as int, BucketState { proof_locks: (bs[b.0 as int].proof_locks + 1) as u32, ..bs[b.0 as int] }),
+            ProofKind::AuthZoneProof => bs,
+        }
+    }
+    /// effect of consuming one proof of kind `k` on the bucket table: exactly that bucket's lock counter - 1
+    pub open spec fn buckets_after_drop_proof<'a>(bs: Seq<BucketState<'a>>, k: ProofKind) -> Seq<BucketState<'a>> {
+        match k {
+            ProofKind::BucketProof(b) => bs.update(b.0 as int, BucketState { proof_locks: (bs[b.0 as int].proof_locks - 1) as u32, ..bs[b.0 as int] }),
+            ProofKind::AuthZoneProof => bs,
+        }
+    }
 
     /// `o` is the visitor-output form (`.into()`) of the validation error `e`
     pub open spec fn is_err<V: ManifestInterpretationVisitor>(o: Out<V>, e: ManifestValidationError) -> bool {
         call_ensures(<Out<V> as From<ManifestValidationError>>::from, (e,), o)
     }
-    /// ... of an error that carries a debug text (`format!("{state:?}")`; the text itself is not specified)
+    // ... of the errors that carry a debug text (`format!("{state:?}")`; the text itself is not specified)
     pub open spec fn is_err_bucket_already_used<V: ManifestInterpretationVisitor>(o: Out<V>, b: ManifestBucket) -> bool {
         exists|s: String| #[trigger] call_ensures(<Out<V> as From<ManifestValidationError>>::from, (ManifestValidationError::BucketAlreadyUsed(b, s),), o)
     }
+    pub open spec fn is_err_bucket_locked<V: ManifestInterpretationVisitor>(o: Out<V>, b: ManifestBucket) -> bool {
+        exists|s: String| #[trigger] call_ensures(<Out<V> as From<ManifestValidationError>>::from, (ManifestValidationError::BucketConsumedWhilstLockedByProof(b, s),), o)
+    }
+    pub open spec fn is_err_proof_already_used<V: ManifestInterpretationVisitor>(o: Out<V>, p: ManifestProof) -> bool {
+        exists|s: String| #[trigger] call_ensures(<Out<V> as From<ManifestValidationError>>::from, (ManifestValidationError::ProofAlreadyUsed(p, s),), o)
+    }
+    pub open spec fn is_err_reservation_already_used<V: ManifestInterpretationVisitor>(o: Out<V>, r: ManifestAddressReservation) -> bool {
+        exists|s: String| #[trigger] call_ensures(<Out<V> as From<ManifestValidationError>>::from, (ManifestValidationError::AddressReservationAlreadyUsed(r, s),), o)
+    }
+    pub open spec fn is_err_dangling_bucket<V: ManifestInterpretationVisitor>(o: Out<V>, b: ManifestBucket) -> bool {
+        exists|s: String| #[trigger] call_ensures(<Out<V> as From<ManifestValidationError>>::from, (ManifestValidationError::DanglingBucket(b, s),), o)
+    }
+    pub open spec fn is_err_dangling_reservation<V: ManifestInterpretationVisitor>(o: Out<V>, r: ManifestAddressReservation) -> bool {
+        exists|s: String| #[trigger] call_ensures(<Out<V> as From<ManifestValidationError>>::from, (ManifestValidationError::DanglingAddressReservation(r, s),), o)
+    }
+    /// the error for using bucket `b` when it is not live
+    pub open spec fn is_err_bucket_not_live<V: ManifestInterpretationVisitor>(o: Out<V>, b: ManifestBucket, created: bool) -> bool {
+        if created { is_err_bucket_already_used::<V>(o, b) } else { is_err::<V>(o, ManifestValidationError::BucketNotYetCreated(b)) }
+    }
+    pub open spec fn is_err_proof_not_live<V: ManifestInterpretationVisitor>(o: Out<V>, p: ManifestProof, created: bool) -> bool {
+        if created { is_err_proof_already_used::<V>(o, p) } else { is_err::<V>(o, ManifestValidationError::ProofNotYetCreated(p)) }
+    }
+    pub open spec fn is_err_reservation_not_live<V: ManifestInterpretationVisitor>(o: Out<V>, r: ManifestAddressReservation, created: bool) -> bool {
+        if created { is_err_reservation_already_used::<V>(o, r) } else { is_err::<V>(o, ManifestValidationError::AddressReservationNotYetCreated(r)) }
+    }
 
     impl<'a, M: ReadableManifest + ?Sized> StaticManifestInterpreter<'a, M> {
+        // ---- abstraction of the state vectors: id n is entry n; consumed_at marks the end of its life
         pub open spec fn bucket_created(&self, b: ManifestBucket) -> bool {
             (b.0 as int) < self.bucket_state@.len()
         }
         pub open spec fn bucket_live(&self, b: ManifestBucket) -> bool {
             self.bucket_created(b) && self.bucket_state@[b.0 as int].consumed_at is None
+        }
+        pub open spec fn proof_created(&self, p: ManifestProof) -> bool {
+            (p.0 as int) < self.proof_state@.len()
+        }
+        pub open spec fn proof_live(&self, p: ManifestProof) -> bool {
+            self.proof_created(p) && self.proof_state@[p.0 as int].consumed_at is None
+        }
+        pub open spec fn reservation_created(&self, r: ManifestAddressReservation) -> bool {
+            (r.0 as int) < self.address_reservation_state@.len()
+        }
+        pub open spec fn reservation_live(&self, r: ManifestAddressReservation) -> bool {
+            self.reservation_created(r) && self.address_reservation_state@[r.0 as int].consumed_at is None
+        }
+        pub open spec fn named_address_created(&self, a: ManifestNamedAddress) -> bool {
+            (a.0 as int) < self.named_address_state@.len()
+        }
+        pub open spec fn intent_created(&self, i: ManifestNamedIntent) -> bool {
+            (i.0 as int) < self.intent_state@.len()
+        }
+
+        /// representation invariant
+        pub open spec fn wf(&self) -> bool {
+            // (every ruleset constructor of the file switches this check on, see ValidationRuleset below)
+            &&& self.validation_ruleset.validate_bucket_proof_lock
+            // lock counter of a live bucket == number of live proofs created from it
+            &&& forall|b: ManifestBucket| self.bucket_live(b) ==>
+                    self.bucket_state@[b.0 as int].proof_locks == #[trigger] proofs_of(self.proof_state@, b).len()
+            // a live bucket proof refers to a live bucket
+            &&& forall|i: int, b: ManifestBucket| #[trigger] live_proof_of(self.proof_state@, i, b) ==> self.bucket_live(b)
+        }
+        pub open spec fn is_initial(&self) -> bool {
+            &&& self.bucket_state@.len() == 0 && self.proof_state@.len() == 0 && self.address_reservation_state@.len() == 0
+            &&& self.named_address_state@.len() == 0 && self.intent_state@.len() == 0
+            &&& self.location == ManifestLocation::Preamble
+        }
+        /// "nothing is consumed twice": between state `self` and a later state `f` the tables only grow
+        /// and every id that was already created and is no longer live stays dead.
+        pub open spec fn no_resurrection(&self, f: &Self) -> bool {
+            &&& self.bucket_state@.len() <= f.bucket_state@.len()
+            &&& self.proof_state@.len() <= f.proof_state@.len()
+            &&& self.address_reservation_state@.len() <= f.address_reservation_state@.len()
+            &&& self.named_address_state@.len() <= f.named_address_state@.len()
+            &&& self.intent_state@.len() <= f.intent_state@.len()
+            &&& forall|b: ManifestBucket| self.bucket_created(b) && !self.bucket_live(b) ==> !f.bucket_live(b)
+            &&& forall|p: ManifestProof| self.proof_created(p) && !self.proof_live(p) ==> !f.proof_live(p)
+            &&& forall|r: ManifestAddressReservation| self.reservation_created(r) && !self.reservation_live(r) ==> !f.reservation_live(r)
         }
 
         /// the parts of the state that no lifecycle operation touches
@@ -212,15 +400,187 @@ pub mod unit {
         }
         pub open spec fn same_buckets(&self, f: &Self) -> bool { self.bucket_state@ =~= f.bucket_state@ }
         pub open spec fn same_proofs(&self, f: &Self) -> bool { self.proof_state@ =~= f.proof_state@ }
+        pub open spec fn same_reservations(&self, f: &Self) -> bool { self.address_reservation_state@ =~= f.address_reservation_state@ }
+        pub open spec fn same_named_addresses(&self, f: &Self) -> bool { self.named_address_state@ =~= f.named_address_state@ }
+        pub open spec fn same_intents(&self, f: &Self) -> bool { self.intent_state@ =~= f.intent_state@ }
         pub open spec fn same_addresses(&self, f: &Self) -> bool {
-            &&& self.address_reservation_state@ =~= f.address_reservation_state@
-            &&& self.named_address_state@ =~= f.named_address_state@
-            &&& self.intent_state@ =~= f.intent_state@
+            self.same_reservations(f) && self.same_named_addresses(f) && self.same_intents(f)
         }
         /// nothing observable changed (Vec contents are compared through their views)
         pub open spec fn same_state(&self, f: &Self) -> bool {
             self.same_config(f) && self.same_buckets(f) && self.same_proofs(f) && self.same_addresses(f)
         }
+    }
+
+    // ---- lemmas ------------------------------------------------------------------------------
+    pub proof fn lemma_proofs_bounded(ps: Seq<ProofState>, b: ManifestBucket)
+        ensures proofs_of(ps, b).len() <= ps.len()
+    {
+        vstd::set_lib::lemma_int_range(0, ps.len() as int);
+        set_int_range(0, ps.len() as int).lemma_len_filter(|i: int| live_proof_of(ps, i, b));
+    }
+
+    /// appending a live proof adds it to the proof set of exactly its bucket
+    pub proof fn lemma_push_proof(ps: Seq<ProofState>, st: ProofState)
+        requires st.consumed_at is None
+        ensures
+            forall|b: ManifestBucket| #[trigger] proofs_of(ps.push(st), b).len()
+                == proofs_of(ps, b).len() + (if st.source_amount.kind() == ProofKind::BucketProof(b) { 1nat } else { 0nat }),
+            forall|i: int, b: ManifestBucket| #[trigger] live_proof_of(ps.push(st), i, b)
+                <==> live_proof_of(ps, i, b) || (i == ps.len() && st.source_amount.kind() == ProofKind::BucketProof(b)),
+    {
+        let ps2 = ps.push(st);
+        assert forall|i: int, b: ManifestBucket| #[trigger] live_proof_of(ps2, i, b)
+                <==> live_proof_of(ps, i, b) || (i == ps.len() && st.source_amount.kind() == ProofKind::BucketProof(b)) by {
+            if 0 <= i < ps.len() { assert(ps2[i] == ps[i]); }
+        }
+        assert forall|b: ManifestBucket| #[trigger] proofs_of(ps2, b).len()
+                == proofs_of(ps, b).len() + (if st.source_amount.kind() == ProofKind::BucketProof(b) { 1nat } else { 0nat }) by {
+            if st.source_amount.kind() == ProofKind::BucketProof(b) {
+                assert(proofs_of(ps2, b) =~= proofs_of(ps, b).insert(ps.len() as int));
+            } else {
+                assert(proofs_of(ps2, b) =~= proofs_of(ps, b));
+            }
+        }
+    }
+
+    /// marking live proof `i` consumed removes it from the proof set of exactly its bucket
+    pub proof fn lemma_consume_proof(ps: Seq<ProofState>, i: int, st: ProofState)
+        requires 0 <= i < ps.len(), ps[i].consumed_at is None, st.consumed_at is Some, st.source_amount == ps[i].source_amount,
+        ensures
+            forall|b: ManifestBucket| #[trigger] proofs_of(ps.update(i, st), b).len()
+                == proofs_of(ps, b).len() - (if ps[i].source_amount.kind() == ProofKind::BucketProof(b) { 1nat } else { 0nat }),
+            forall|b: ManifestBucket| ps[i].source_amount.kind() == ProofKind::BucketProof(b) ==> #[trigger] proofs_of(ps, b).len() >= 1,
+            forall|j: int, b: ManifestBucket| #[trigger] live_proof_of(ps.update(i, st), j, b) <==> live_proof_of(ps, j, b) && j != i,
+    {
+        let ps2 = ps.update(i, st);
+        assert forall|j: int, b: ManifestBucket| #[trigger] live_proof_of(ps2, j, b) <==> live_proof_of(ps, j, b) && j != i by {
+            if 0 <= j < ps.len() && j != i { assert(ps2[j] == ps[j]); }
+        }
+        assert forall|b: ManifestBucket| #[trigger] proofs_of(ps2, b).len()
+                == proofs_of(ps, b).len() - (if ps[i].source_amount.kind() == ProofKind::BucketProof(b) { 1nat } else { 0nat }) by {
+            if ps[i].source_amount.kind() == ProofKind::BucketProof(b) {
+                assert(live_proof_of(ps, i, b));
+                assert(proofs_of(ps, b).contains(i));
+                assert(proofs_of(ps2, b) =~= proofs_of(ps, b).remove(i));
+            } else {
+                assert(proofs_of(ps2, b) =~= proofs_of(ps, b));
+            }
+        }
+        assert forall|b: ManifestBucket| ps[i].source_amount.kind() == ProofKind::BucketProof(b) implies #[trigger] proofs_of(ps, b).len() >= 1 by {
+            assert(live_proof_of(ps, i, b));
+            assert(proofs_of(ps, b).contains(i));
+        }
+    }
+
+    /// the ghost lock state coincides with "counter > 0"
+    pub proof fn lemma_locked_iff_count(ps: Seq<ProofState>, b: ManifestBucket)
+        ensures locked(ps, b) <==> proofs_of(ps, b).len() > 0
+    {
+        if locked(ps, b) {
+            let i = choose|i: int| live_proof_of(ps, i, b);
+            assert(proofs_of(ps, b).contains(i));
+            assert(proofs_of(ps, b).remove(i).insert(i) =~= proofs_of(ps, b));
+        }
+        if proofs_of(ps, b).len() > 0 {
+            let i = proofs_of(ps, b).choose();
+            assert(proofs_of(ps, b).contains(i));
+            assert(live_proof_of(ps, i, b));
+        }
+    }
+
+    /// C36 "nothing is consumed twice", over arbitrary operation sequences: `no_resurrection` composes.
+    pub proof fn lemma_no_resurrection_trans<'a, M: ReadableManifest + ?Sized>(
+        a: &StaticManifestInterpreter<'a, M>, b: &StaticManifestInterpreter<'a, M>, c: &StaticManifestInterpreter<'a, M>)
+        requires a.no_resurrection(b), b.no_resurrection(c)
+        ensures a.no_resurrection(c)
+    {
+        assert forall|x: ManifestBucket| a.bucket_created(x) && !a.bucket_live(x) implies !c.bucket_live(x) by {
+            assert(b.bucket_created(x) && !b.bucket_live(x));
+        }
+        assert forall|x: ManifestProof| a.proof_created(x) && !a.proof_live(x) implies !c.proof_live(x) by {
+            assert(b.proof_created(x) && !b.proof_live(x));
+        }
+        assert forall|x: ManifestAddressReservation| a.reservation_created(x) && !a.reservation_live(x) implies !c.reservation_live(x) by {
+            assert(b.reservation_created(x) && !b.reservation_live(x));
+        }
+    }
+
+    impl NextInstructionRequirement {
+        /*@fn radix-transactions/src/manifest/static_manifest_interpreter.rs :: impl NextInstructionRequirement :: fn handle_next_instruction
+        @sig
+            ensures
+                // after a next-call assertion the next instruction must be an invocation (and discharges the requirement)
+                ret is Ok <==> (*old(self) is RequiredInvocationDueToNextCallAssertion ==> effect is Invocation),
+                ret is Ok ==> *final(self) is None,
+                ret matches Err(e) ==> e is InstructionFollowingNextCallAssertionWasNotInvocation && *final(self) == *old(self),
+        @*/
+        /*@fn radix-transactions/src/manifest/static_manifest_interpreter.rs :: impl NextInstructionRequirement :: fn validate_at_end
+        @sig
+            ensures
+                ret is Ok <==> *self is None,
+                ret matches Err(e) ==> e is ManifestEndedWhilstExpectingNextCallAssertion,
+        @*/
+    }
+
+    impl ValidationRuleset {
+        /*@fn radix-transactions/src/manifest/static_manifest_interpreter.rs :: impl ValidationRuleset :: fn all
+        @sig
+            ensures ret.validate_bucket_proof_lock, ret.validate_no_dangling_nodes,
+        @*/
+        /*@fn radix-transactions/src/manifest/static_manifest_interpreter.rs :: impl ValidationRuleset :: fn babylon_equivalent
+        @sig
+            ensures ret.validate_bucket_proof_lock,
+        @*/
+        /*@fn radix-transactions/src/manifest/static_manifest_interpreter.rs :: impl ValidationRuleset :: fn cuttlefish
+        @sig
+            ensures ret.validate_bucket_proof_lock, ret.validate_no_dangling_nodes,
+        @*/
+    }
+
+    impl<'a, M: ReadableManifest + ?Sized> StaticManifestInterpreter<'a, M> {
+        /*@fn radix-transactions/src/manifest/static_manifest_interpreter.rs :: impl<'a, M: ReadableManifest + ?Sized> StaticManifestInterpreter<'a, M> :: fn new
+        @sig
+            requires validation_ruleset.validate_bucket_proof_lock,
+            ensures ret.is_initial(), ret.wf(), ret.validation_ruleset == validation_ruleset, ret.manifest == manifest,
+        @*/
+
+        // ---------------------------------------------------------------- buckets
+        /*@fn radix-transactions/src/manifest/static_manifest_interpreter.rs :: impl<'a, M: ReadableManifest + ?Sized> StaticManifestInterpreter<'a, M> :: fn handle_new_bucket
+        @sig
+            requires old(self).wf(), old(self).bucket_state@.len() < u32::MAX,
+            ensures
+                ({
+                    let b = ManifestBucket(old(self).bucket_state@.len() as u32);
+                    let st = BucketState { name: old(self).manifest.names().bucket_name(b), created_at: old(self).location,
+                                           proof_locks: 0, consumed_at: None, source_amount };
+                    // a FRESH id: never issued before, hence neither live nor consumed
+                    &&& !old(self).bucket_created(b)
+                    // creation itself cannot fail: the outcome is the visitor's answer
+                    &&& ret == old(visitor).answer_new_bucket(b, st)
+                    // exactly that id becomes live, unlocked
+                    &&& ret is Continue ==> final(self).bucket_state@ == old(self).bucket_state@.push(st)
+                            && final(self).bucket_live(b) && !locked(final(self).proof_state@, b)
+                    &&& ret is Break ==> old(self).same_buckets(final(self))
+                }),
+                old(self).same_config(final(self)), old(self).same_proofs(final(self)), old(self).same_addresses(final(self)),
+                final(self).wf(),
+                old(self).no_resurrection(final(self)),
+        @after <<self.bucket_state.push(>> #1
+            proof {
+                assert forall|i: int| !(#[trigger] live_proof_of(self.proof_state@, i, new_bucket)) by {
+                    if live_proof_of(self.proof_state@, i, new_bucket) { assert(old(self).bucket_live(new_bucket)); }
+                }
+                assert(proofs_of(self.proof_state@, new_bucket) =~= Set::<int>::empty());
+                assert forall|b: ManifestBucket| self.bucket_live(b) implies
+                        self.bucket_state@[b.0 as int].proof_locks == #[trigger] proofs_of(self.proof_state@, b).len() by {
+                    if b.0 != new_bucket.0 { assert(old(self).bucket_live(b)); }
+                }
+                assert forall|i: int, b: ManifestBucket| #[trigger] live_proof_of(self.proof_state@, i, b) implies self.bucket_live(b) by {
+                    assert(old(self).bucket_live(b));
+                }
+            }
+        @*/
 
         /*@fn radix-transactions/src/manifest/static_manifest_interpreter.rs :: impl<'a, M: ReadableManifest + ?Sized> StaticManifestInterpreter<'a, M> :: fn get_existing_bucket
         @sig
@@ -230,13 +590,425 @@ pub mod unit {
                     && final(self).bucket_state@ == old(self).bucket_state@.update(bucket.0 as int, *final(st))
                     && old(self).same_config(final(self)) && old(self).same_proofs(final(self)) && old(self).same_addresses(final(self)),
                 ret is Break ==> old(self).same_state(final(self)),
-                ret matches ControlFlow::Break(o) ==>
-                       (if old(self).bucket_created(bucket) {
-                            is_err_bucket_already_used::<V>(o, bucket)
-                        } else {
-                            is_err::<V>(o, ManifestValidationError::BucketNotYetCreated(bucket))
-                        }),
+                ret matches ControlFlow::Break(o) ==> is_err_bucket_not_live::<V>(o, bucket, old(self).bucket_created(bucket)),
         @*/
+
+        /*@fn radix-transactions/src/manifest/static_manifest_interpreter.rs :: impl<'a, M: ReadableManifest + ?Sized> StaticManifestInterpreter<'a, M> :: fn consume_bucket
+        @sig
+            requires old(self).wf(),
+            ensures
+                ({
+                    let live = old(self).bucket_live(bucket);
+                    let lk = locked(old(self).proof_state@, bucket);
+                    let st0 = old(self).bucket_state@[bucket.0 as int];
+                    let st1 = BucketState { consumed_at: Some(old(self).location), ..st0 };
+                    // rejected (exact error, nothing changes, visitor not consulted) unless live and unlocked
+                    &&& !(live && !lk) ==> old(self).same_state(final(self)) && *final(visitor) == *old(visitor)
+                            && (ret matches ControlFlow::Break(o) &&
+                                    if live { is_err_bucket_locked::<V>(o, bucket) }
+                                    else { is_err_bucket_not_live::<V>(o, bucket, old(self).bucket_created(bucket)) })
+                    // otherwise exactly that bucket is marked consumed and the outcome is the visitor's answer
+                    &&& live && !lk ==> ret == old(visitor).answer_consume_bucket(bucket, st1, destination)
+                            && final(self).bucket_state@ == old(self).bucket_state@.update(bucket.0 as int, st1)
+                            && !final(self).bucket_live(bucket)
+                }),
+                old(self).same_config(final(self)), old(self).same_proofs(final(self)), old(self).same_addresses(final(self)),
+                final(self).wf(),
+                old(self).no_resurrection(final(self)),
+        @entry
+            proof { lemma_locked_iff_count(old(self).proof_state@, bucket); }
+        @before <<visitor.on_consume_bucket(>> #1
+            proof {
+                assert forall|i: int, b: ManifestBucket| #[trigger] live_proof_of(old(self).proof_state@, i, b) implies b != bucket by {
+                    if b == bucket { assert(locked(old(self).proof_state@, bucket)); }
+                }
+            }
+        @*/
+
+        // ---------------------------------------------------------------- proofs
+        /*@fn radix-transactions/src/manifest/static_manifest_interpreter.rs :: impl<'a, M: ReadableManifest + ?Sized> StaticManifestInterpreter<'a, M> :: fn handle_new_proof
+        @sig
+            requires old(self).wf(), old(self).proof_state@.len() < u32::MAX,
+            ensures
+                ({
+                    let k = source_amount.kind();
+                    // a bucket proof needs a live bucket; an auth-zone proof is always possible
+                    let guard = k matches ProofKind::BucketProof(b) ==> old(self).bucket_live(b);
+                    let p = ManifestProof(old(self).proof_state@.len() as u32);
+                    let st = ProofState { name: old(self).manifest.names().proof_name(p), created_at: old(self).location,
+                                          consumed_at: None, source_amount };
+                    &&& !old(self).proof_created(p)
+                    &&& !guard ==> old(self).same_state(final(self)) && *final(visitor) == *old(visitor)
+                            && (ret matches ControlFlow::Break(o) && k matches ProofKind::BucketProof(b)
+                                    && is_err_bucket_not_live::<V>(o, b, old(self).bucket_created(b)))
+                    &&& guard ==> ret == old(visitor).answer_new_proof(p, st)
+                    // exactly that proof becomes live and exactly its bucket gets one more lock
+                    &&& ret is Continue ==> final(self).proof_state@ == old(self).proof_state@.push(st)
+                            && final(self).bucket_state@ == buckets_after_new_proof(old(self).bucket_state@, k)
+                            && final(self).proof_live(p)
+                            && (k matches ProofKind::BucketProof(b) ==> locked(final(self).proof_state@, b))
+                            && final(self).wf()
+                    &&& ret is Break ==> old(self).same_proofs(final(self))
+                }),
+                final(self).bucket_state@.len() == old(self).bucket_state@.len(),
+                old(self).same_config(final(self)), old(self).same_addresses(final(self)),
+                old(self).no_resurrection(final(self)),
+        @entry
+            let ghost new_p = ManifestProof(old(self).proof_state@.len() as u32);
+            let ghost new_st = ProofState { name: old(self).manifest.names().proof_name(new_p), created_at: old(self).location,
+                                            consumed_at: None, source_amount };
+            proof {
+                if let ProofKind::BucketProof(b) = source_amount.kind() { lemma_proofs_bounded(old(self).proof_state@, b); }
+                lemma_push_proof(old(self).proof_state@, new_st);
+            }
+        @after <<self.proof_state.push(>> #1
+            proof {
+                let k = source_amount.kind();
+                assert(self.proof_state@ == old(self).proof_state@.push(new_st));
+                assert(self.bucket_state@ == buckets_after_new_proof(old(self).bucket_state@, k));
+                assert forall|b: ManifestBucket| self.bucket_live(b) <==> old(self).bucket_live(b) by {}
+                assert forall|b: ManifestBucket| self.bucket_live(b) implies
+                        self.bucket_state@[b.0 as int].proof_locks == #[trigger] proofs_of(self.proof_state@, b).len() by {
+                    assert(old(self).bucket_live(b));
+                    assert(old(self).bucket_state@[b.0 as int].proof_locks == proofs_of(old(self).proof_state@, b).len());
+                }
+                assert forall|i: int, b: ManifestBucket| #[trigger] live_proof_of(self.proof_state@, i, b) implies self.bucket_live(b) by {
+                    if live_proof_of(old(self).proof_state@, i, b) { assert(old(self).bucket_live(b)); }
+                }
+                if let ProofKind::BucketProof(b) = k {
+                    assert(live_proof_of(self.proof_state@, old(self).proof_state@.len() as int, b));
+                }
+            }
+        @*/
+
+        /*@fn radix-transactions/src/manifest/static_manifest_interpreter.rs :: impl<'a, M: ReadableManifest + ?Sized> StaticManifestInterpreter<'a, M> :: fn get_existing_proof
+        @sig
+            ensures
+                ret is Continue <==> old(self).proof_live(proof),
+                ret matches ControlFlow::Continue(st) ==> *st == old(self).proof_state@[proof.0 as int]
+                    && final(self).proof_state@ == old(self).proof_state@.update(proof.0 as int, *final(st))
+                    && old(self).same_config(final(self)) && old(self).same_buckets(final(self)) && old(self).same_addresses(final(self)),
+                ret is Break ==> old(self).same_state(final(self)),
+                ret matches ControlFlow::Break(o) ==> is_err_proof_not_live::<V>(o, proof, old(self).proof_created(proof)),
+        @*/
+
+        /*@fn radix-transactions/src/manifest/static_manifest_interpreter.rs :: impl<'a, M: ReadableManifest + ?Sized> StaticManifestInterpreter<'a, M> :: fn handle_cloned_proof
+        @sig
+            requires old(self).wf(), old(self).proof_state@.len() < u32::MAX,
+            ensures
+                ({
+                    let live = old(self).proof_live(cloned_proof);
+                    let sa = old(self).proof_state@[cloned_proof.0 as int].source_amount;
+                    let p = ManifestProof(old(self).proof_state@.len() as u32);
+                    let st = ProofState { name: old(self).manifest.names().proof_name(p), created_at: old(self).location,
+                                          consumed_at: None, source_amount: sa };
+                    &&& !live ==> old(self).same_state(final(self)) && *final(visitor) == *old(visitor)
+                            && (ret matches ControlFlow::Break(o) && is_err_proof_not_live::<V>(o, cloned_proof, old(self).proof_created(cloned_proof)))
+                    &&& live ==> ret == old(visitor).answer_new_proof(p, st)
+                    // the clone has the SAME source (hence locks the same bucket once more)
+                    &&& ret is Continue ==> final(self).proof_state@ == old(self).proof_state@.push(st)
+                            && final(self).bucket_state@ == buckets_after_new_proof(old(self).bucket_state@, sa.kind())
+                            && final(self).proof_live(p)
+                            && final(self).wf()
+                    &&& ret is Break ==> old(self).same_proofs(final(self))
+                }),
+                final(self).bucket_state@.len() == old(self).bucket_state@.len(),
+                old(self).same_config(final(self)), old(self).same_addresses(final(self)),
+                old(self).no_resurrection(final(self)),
+        @before <<self.handle_new_proof(>> #1
+            proof {
+                assert(self.proof_state@ =~= old(self).proof_state@);
+                if let ProofKind::BucketProof(b) = source_amount.kind() {
+                    assert(live_proof_of(old(self).proof_state@, cloned_proof.0 as int, b));
+                }
+            }
+        @*/
+
+        /*@fn radix-transactions/src/manifest/static_manifest_interpreter.rs :: impl<'a, M: ReadableManifest + ?Sized> StaticManifestInterpreter<'a, M> :: fn consume_proof
+        @sig
+            requires old(self).wf(),
+            ensures
+                ({
+                    let live = old(self).proof_live(proof);
+                    let st0 = old(self).proof_state@[proof.0 as int];
+                    let st1 = ProofState { consumed_at: Some(old(self).location), ..st0 };
+                    &&& !live ==> old(self).same_state(final(self)) && *final(visitor) == *old(visitor)
+                            && (ret matches ControlFlow::Break(o) && is_err_proof_not_live::<V>(o, proof, old(self).proof_created(proof)))
+                    // a live proof is marked consumed; the only way to fail then is the visitor
+                    &&& live ==> ret == old(visitor).answer_consume_proof(proof, st1, destination)
+                            && final(self).proof_state@ == old(self).proof_state@.update(proof.0 as int, st1)
+                            && !final(self).proof_live(proof)
+                    // ... and exactly its bucket loses one lock
+                    &&& ret is Continue ==> final(self).bucket_state@ == buckets_after_drop_proof(old(self).bucket_state@, st0.source_amount.kind())
+                            && final(self).wf()
+                    &&& ret is Break ==> old(self).same_buckets(final(self))
+                }),
+                final(self).bucket_state@.len() == old(self).bucket_state@.len(),
+                old(self).same_config(final(self)), old(self).same_addresses(final(self)),
+                old(self).no_resurrection(final(self)),
+        @before <<let source_amount>> #1
+            let ghost st1 = *state;
+            proof {
+                lemma_consume_proof(old(self).proof_state@, proof.0 as int, st1);
+            }
+        @before <<self.get_existing_bucket::<V>(bucket)>> #1
+            proof {
+                assert(live_proof_of(old(self).proof_state@, proof.0 as int, bucket));
+                assert(old(self).bucket_live(bucket));
+                assert(self.bucket_state@ =~= old(self).bucket_state@);
+                assert(old(self).bucket_state@[bucket.0 as int].proof_locks == proofs_of(old(self).proof_state@, bucket).len());
+                assert(proofs_of(old(self).proof_state@, bucket).len() >= 1);
+            }
+        @before <<ControlFlow::Continue(())>> #1
+            proof {
+                let k = old(self).proof_state@[proof.0 as int].source_amount.kind();
+                assert(self.proof_state@ == old(self).proof_state@.update(proof.0 as int, st1));
+                assert(self.bucket_state@ == buckets_after_drop_proof(old(self).bucket_state@, k));
+                assert forall|b: ManifestBucket| self.bucket_live(b) <==> old(self).bucket_live(b) by {}
+                assert forall|b: ManifestBucket| self.bucket_live(b) implies
+                        self.bucket_state@[b.0 as int].proof_locks == #[trigger] proofs_of(self.proof_state@, b).len() by {
+                    assert(old(self).bucket_live(b));
+                    assert(old(self).bucket_state@[b.0 as int].proof_locks == proofs_of(old(self).proof_state@, b).len());
+                }
+                assert forall|i: int, b: ManifestBucket| #[trigger] live_proof_of(self.proof_state@, i, b) implies self.bucket_live(b) by {
+                    assert(live_proof_of(old(self).proof_state@, i, b));
+                    assert(old(self).bucket_live(b));
+                }
+            }
+        @*/
+
+        // ---------------------------------------------------------------- address reservations
+        /*@fn radix-transactions/src/manifest/static_manifest_interpreter.rs :: impl<'a, M: ReadableManifest + ?Sized> StaticManifestInterpreter<'a, M> :: fn handle_new_address_reservation
+        @sig
+            requires old(self).wf(), old(self).address_reservation_state@.len() < u32::MAX,
+            ensures
+                ({
+                    let r = ManifestAddressReservation(old(self).address_reservation_state@.len() as u32);
+                    let st = AddressReservationState { name: old(self).manifest.names().address_reservation_name(r),
+                                                       package_address, blueprint_name, preallocated_address,
+                                                       created_at: old(self).location, consumed_at: None };
+                    let answer = old(visitor).answer_new_address_reservation(r, st);
+                    &&& !old(self).reservation_created(r)
+                    // creation cannot fail by itself: the outcome is the visitor's answer, the fresh id is returned
+                    &&& answer is Continue ==> ret == ControlFlow::<Out<V>, ManifestAddressReservation>::Continue(r)
+                            && final(self).address_reservation_state@ == old(self).address_reservation_state@.push(st)
+                            && final(self).reservation_live(r)
+                    &&& answer matches ControlFlow::Break(o) ==> ret == ControlFlow::<Out<V>, ManifestAddressReservation>::Break(o)
+                            && old(self).same_reservations(final(self))
+                }),
+                old(self).same_config(final(self)), old(self).same_buckets(final(self)), old(self).same_proofs(final(self)),
+                old(self).same_named_addresses(final(self)), old(self).same_intents(final(self)),
+                final(self).wf(),
+                old(self).no_resurrection(final(self)),
+        @*/
+
+        /*@fn radix-transactions/src/manifest/static_manifest_interpreter.rs :: impl<'a, M: ReadableManifest + ?Sized> StaticManifestInterpreter<'a, M> :: fn get_existing_address_reservation
+        @sig
+            ensures
+                ret is Continue <==> old(self).reservation_live(address_reservation),
+                ret matches ControlFlow::Continue(st) ==> *st == old(self).address_reservation_state@[address_reservation.0 as int]
+                    && final(self).address_reservation_state@ == old(self).address_reservation_state@.update(address_reservation.0 as int, *final(st))
+                    && old(self).same_config(final(self)) && old(self).same_buckets(final(self)) && old(self).same_proofs(final(self))
+                    && old(self).same_named_addresses(final(self)) && old(self).same_intents(final(self)),
+                ret is Break ==> old(self).same_state(final(self)),
+                ret matches ControlFlow::Break(o) ==>
+                    is_err_reservation_not_live::<V>(o, address_reservation, old(self).reservation_created(address_reservation)),
+        @*/
+
+        /*@fn radix-transactions/src/manifest/static_manifest_interpreter.rs :: impl<'a, M: ReadableManifest + ?Sized> StaticManifestInterpreter<'a, M> :: fn consume_address_reservation
+        @sig
+            requires old(self).wf(),
+            ensures
+                ({
+                    let live = old(self).reservation_live(address_reservation);
+                    let st0 = old(self).address_reservation_state@[address_reservation.0 as int];
+                    let st1 = AddressReservationState { consumed_at: Some(old(self).location), ..st0 };
+                    &&& !live ==> old(self).same_state(final(self)) && *final(visitor) == *old(visitor)
+                            && (ret matches ControlFlow::Break(o) &&
+                                    is_err_reservation_not_live::<V>(o, address_reservation, old(self).reservation_created(address_reservation)))
+                    &&& live ==> ret == old(visitor).answer_consume_address_reservation(address_reservation, st1, destination)
+                            && final(self).address_reservation_state@ == old(self).address_reservation_state@.update(address_reservation.0 as int, st1)
+                            && !final(self).reservation_live(address_reservation)
+                }),
+                old(self).same_config(final(self)), old(self).same_buckets(final(self)), old(self).same_proofs(final(self)),
+                old(self).same_named_addresses(final(self)), old(self).same_intents(final(self)),
+                final(self).wf(),
+                old(self).no_resurrection(final(self)),
+        @*/
+
+        // ---------------------------------------------------------------- named addresses (never consumed)
+        /*@fn radix-transactions/src/manifest/static_manifest_interpreter.rs :: impl<'a, M: ReadableManifest + ?Sized> StaticManifestInterpreter<'a, M> :: fn handle_new_named_address
+        @sig
+            requires old(self).wf(), old(self).named_address_state@.len() < u32::MAX,
+            ensures
+                ({
+                    let a = ManifestNamedAddress(old(self).named_address_state@.len() as u32);
+                    let st = NamedAddressState { name: old(self).manifest.names().address_name(a), associated_reservation,
+                                                 created_at: old(self).location };
+                    &&& !old(self).named_address_created(a)
+                    &&& ret == old(visitor).answer_new_named_address(a, st, package_address, blueprint_name)
+                    &&& ret is Continue ==> final(self).named_address_state@ == old(self).named_address_state@.push(st)
+                            && final(self).named_address_created(a)
+                    &&& ret is Break ==> old(self).same_named_addresses(final(self))
+                }),
+                old(self).same_config(final(self)), old(self).same_buckets(final(self)), old(self).same_proofs(final(self)),
+                old(self).same_reservations(final(self)), old(self).same_intents(final(self)),
+                final(self).wf(),
+                old(self).no_resurrection(final(self)),
+        @*/
+
+        /*@fn radix-transactions/src/manifest/static_manifest_interpreter.rs :: impl<'a, M: ReadableManifest + ?Sized> StaticManifestInterpreter<'a, M> :: fn get_existing_named_address
+        @sig
+            ensures
+                ret is Continue <==> old(self).named_address_created(named_address),
+                ret matches ControlFlow::Continue(st) ==> *st == old(self).named_address_state@[named_address.0 as int]
+                    && final(self).named_address_state@ == old(self).named_address_state@.update(named_address.0 as int, *final(st))
+                    && old(self).same_config(final(self)) && old(self).same_buckets(final(self)) && old(self).same_proofs(final(self))
+                    && old(self).same_reservations(final(self)) && old(self).same_intents(final(self)),
+                ret is Break ==> old(self).same_state(final(self)),
+                ret matches ControlFlow::Break(o) ==> is_err::<V>(o, ManifestValidationError::NamedAddressNotYetCreated(named_address)),
+        @*/
+
+        // ---------------------------------------------------------------- named intents (never consumed)
+        /*@fn radix-transactions/src/manifest/static_manifest_interpreter.rs :: impl<'a, M: ReadableManifest + ?Sized> StaticManifestInterpreter<'a, M> :: fn handle_new_intent
+        @sig
+            requires old(self).wf(), old(self).intent_state@.len() < u32::MAX,
+            ensures
+                ({
+                    let i = ManifestNamedIntent(old(self).intent_state@.len() as u32);
+                    let st = IntentState { name: old(self).manifest.names().intent_name(i), intent_hash, intent_type,
+                                           created_at: old(self).location };
+                    &&& !old(self).intent_created(i)
+                    &&& ret == old(visitor).answer_new_intent(i, st)
+                    &&& ret is Continue ==> final(self).intent_state@ == old(self).intent_state@.push(st) && final(self).intent_created(i)
+                    &&& ret is Break ==> old(self).same_intents(final(self))
+                }),
+                old(self).same_config(final(self)), old(self).same_buckets(final(self)), old(self).same_proofs(final(self)),
+                old(self).same_reservations(final(self)), old(self).same_named_addresses(final(self)),
+                final(self).wf(),
+                old(self).no_resurrection(final(self)),
+        @*/
+
+        // ---------------------------------------------------------------- end of the manifest
+        /// bucket `i` is the first one (in creation order) that is still live
+        pub open spec fn first_live_bucket(&self, i: int) -> bool {
+            &&& 0 <= i < self.bucket_state@.len() && self.bucket_state@[i].consumed_at is None
+            &&& forall|j: int| 0 <= j < i ==> self.bucket_state@[j].consumed_at is Some
+        }
+        pub open spec fn first_live_reservation(&self, i: int) -> bool {
+            &&& 0 <= i < self.address_reservation_state@.len() && self.address_reservation_state@[i].consumed_at is None
+            &&& forall|j: int| 0 <= j < i ==> self.address_reservation_state@[j].consumed_at is Some
+        }
+        pub open spec fn no_live_bucket(&self) -> bool { forall|b: ManifestBucket| !self.bucket_live(b) }
+        pub open spec fn no_live_reservation(&self) -> bool { forall|r: ManifestAddressReservation| !self.reservation_live(r) }
+
+        /*@fn radix-transactions/src/manifest/static_manifest_interpreter.rs :: impl<'a, M: ReadableManifest + ?Sized> StaticManifestInterpreter<'a, M> :: fn handle_wrap_up
+        @sig
+            requires old(self).bucket_state@.len() <= u32::MAX, old(self).address_reservation_state@.len() <= u32::MAX,
+            ensures
+                old(self).same_state(final(self)),
+                ({
+                    let pending = old(self).next_instruction_requirement is RequiredInvocationDueToNextCallAssertion;
+                    let check = old(self).validation_ruleset.validate_no_dangling_nodes;
+                    // "the manifest ends as required": no pending next-call assertion, and (ruleset permitting)
+                    // every bucket and every address reservation has been consumed
+                    let guard = !pending && (check ==> old(self).no_live_bucket() && old(self).no_live_reservation());
+                    &&& guard ==> ret == old(visitor).answer_finish()
+                    &&& !guard ==> *final(visitor) == *old(visitor) && (ret matches ControlFlow::Break(o) && (
+                            if pending { is_err::<V>(o, ManifestValidationError::ManifestEndedWhilstExpectingNextCallAssertion) }
+                            else if !old(self).no_live_bucket() {
+                                exists|i: int| old(self).first_live_bucket(i) && #[trigger] is_err_dangling_bucket::<V>(o, ManifestBucket(i as u32))
+                            } else {
+                                exists|i: int| old(self).first_live_reservation(i) && #[trigger] is_err_dangling_reservation::<V>(o, ManifestAddressReservation(i as u32))
+                            }))
+                }),
+        @loop 1 iter it
+            invariant
+                *self == *old(self), *visitor == *old(visitor),
+                forall|j: int| 0 <= j < it.index@ ==> self.bucket_state@[j].consumed_at is Some,
+        @loop 2 iter it
+            invariant
+                *self == *old(self), *visitor == *old(visitor),
+                forall|j: int| 0 <= j < self.bucket_state@.len() ==> self.bucket_state@[j].consumed_at is Some,
+                forall|j: int| 0 <= j < it.index@ ==> self.address_reservation_state@[j].consumed_at is Some,
+        @*/
+    }
+
+    // ---- client scenario: the contracts are strong enough to decide a concrete manifest -------------
+    /// the no-op visitor of the file (`impl ManifestInterpretationVisitor for ()`, whose methods are the
+    /// trait's default bodies `ControlFlow::Continue(())`): every answer is Continue
+    impl ManifestInterpretationVisitor for () {
+        type Output = ManifestValidationError;
+        open spec fn answer_new_bucket(&self, bucket: ManifestBucket, state: BucketState) -> ControlFlow<ManifestValidationError> { ControlFlow::Continue(()) }
+        fn on_new_bucket(&mut self, details: OnNewBucket) -> (r: ControlFlow<ManifestValidationError>) { ControlFlow::Continue(()) }
+        open spec fn answer_consume_bucket(&self, bucket: ManifestBucket, state: BucketState, destination: BucketDestination) -> ControlFlow<ManifestValidationError> { ControlFlow::Continue(()) }
+        fn on_consume_bucket(&mut self, details: OnConsumeBucket) -> (r: ControlFlow<ManifestValidationError>) { ControlFlow::Continue(()) }
+        open spec fn answer_new_proof(&self, proof: ManifestProof, state: ProofState) -> ControlFlow<ManifestValidationError> { ControlFlow::Continue(()) }
+        fn on_new_proof(&mut self, details: OnNewProof) -> (r: ControlFlow<ManifestValidationError>) { ControlFlow::Continue(()) }
+        open spec fn answer_consume_proof(&self, proof: ManifestProof, state: ProofState, destination: ProofDestination) -> ControlFlow<ManifestValidationError> { ControlFlow::Continue(()) }
+        fn on_consume_proof(&mut self, details: OnConsumeProof) -> (r: ControlFlow<ManifestValidationError>) { ControlFlow::Continue(()) }
+        open spec fn answer_new_address_reservation(&self, address_reservation: ManifestAddressReservation, state: AddressReservationState) -> ControlFlow<ManifestValidationError> { ControlFlow::Continue(()) }
+        fn on_new_address_reservation(&mut self, details: OnNewAddressReservation) -> (r: ControlFlow<ManifestValidationError>) { ControlFlow::Continue(()) }
+        open spec fn answer_consume_address_reservation(&self, address_reservation: ManifestAddressReservation, state: AddressReservationState,
+                                                   destination: AddressReservationDestination) -> ControlFlow<ManifestValidationError> { ControlFlow::Continue(()) }
+        fn on_consume_address_reservation(&mut self, details: OnConsumeAddressReservation) -> (r: ControlFlow<ManifestValidationError>) { ControlFlow::Continue(()) }
+        open spec fn answer_new_named_address(&self, named_address: ManifestNamedAddress, state: NamedAddressState,
+                                         package_address: &PackageAddress, blueprint_name: &str) -> ControlFlow<ManifestValidationError> { ControlFlow::Continue(()) }
+        fn on_new_named_address(&mut self, details: OnNewNamedAddress) -> (r: ControlFlow<ManifestValidationError>) { ControlFlow::Continue(()) }
+        open spec fn answer_new_intent(&self, intent: ManifestNamedIntent, state: IntentState) -> ControlFlow<ManifestValidationError> { ControlFlow::Continue(()) }
+        fn on_new_intent(&mut self, details: OnNewIntent) -> (r: ControlFlow<ManifestValidationError>) { ControlFlow::Continue(()) }
+        open spec fn answer_finish(&self) -> ControlFlow<ManifestValidationError> { ControlFlow::Continue(()) }
+        fn on_finish(&mut self, details: OnFinish) -> (r: ControlFlow<ManifestValidationError>) { ControlFlow::Continue(()) }
+    }
+
+    /// "nothing is consumed twice", "a bucket with a live proof cannot be consumed" and the reviewer's case
+    /// "no proof from an already consumed bucket", end to end through the real functions (decided
+    /// statically from their contracts only).
+    pub fn scenario_lifecycle<'a, M: ReadableManifest + ?Sized>(manifest: &'a M, src: BucketSourceAmount<'a>) {
+        let mut v = ();
+        let mut s = StaticManifestInterpreter::new(ValidationRuleset::all(), manifest);
+        let b = ManifestBucket(0);
+        let p = ManifestProof(0);
+        let q = ManifestProof(1);
+        let r = s.handle_new_bucket(&mut v, src);
+        assert(r is Continue && s.bucket_live(b));
+        let r = s.handle_new_proof(&mut v, ProofSourceAmount::BucketAllOf { bucket: b });
+        assert(r is Continue && s.proof_live(p));
+        let r = s.handle_cloned_proof(&mut v, p);
+        assert(r is Continue && s.proof_live(q));
+        // locked while either proof is live
+        proof { assert(live_proof_of(s.proof_state@, 0, b)); }
+        let r = s.consume_bucket(&mut v, b, BucketDestination::Worktop);
+        assert(r matches ControlFlow::Break(o) && is_err_bucket_locked::<()>(o, b));
+        let r = s.consume_proof(&mut v, p, ProofDestination::Drop);
+        assert(r is Continue);
+        proof { assert(live_proof_of(s.proof_state@, 1, b)); }
+        let r = s.consume_bucket(&mut v, b, BucketDestination::Worktop);
+        assert(r is Break);
+        // a consumed proof cannot be consumed or cloned again
+        let r = s.consume_proof(&mut v, p, ProofDestination::Drop);
+        assert(r matches ControlFlow::Break(o) && is_err_proof_already_used::<()>(o, p));
+        let r = s.handle_cloned_proof(&mut v, p);
+        assert(r is Break);
+        let r = s.consume_proof(&mut v, q, ProofDestination::AuthZone);
+        assert(r is Continue);
+        // now unlocked: consumed once, and only once
+        proof {
+            lemma_locked_iff_count(s.proof_state@, b);
+        }
+        let r = s.consume_bucket(&mut v, b, BucketDestination::Burned);
+        assert(r is Continue);
+        let r = s.consume_bucket(&mut v, b, BucketDestination::Burned);
+        assert(r matches ControlFlow::Break(o) && is_err_bucket_already_used::<()>(o, b));
+        // the reviewer's case: no proof from an already consumed bucket ...
+        let r = s.handle_new_proof(&mut v, ProofSourceAmount::BucketAllOf { bucket: b });
+        assert(r matches ControlFlow::Break(o) && is_err_bucket_already_used::<()>(o, b));
+        // ... nor from one that does not exist yet
+        let r = s.handle_new_proof(&mut v, ProofSourceAmount::BucketAllOf { bucket: ManifestBucket(7) });
+        assert(r matches ControlFlow::Break(o) && is_err::<()>(o, ManifestValidationError::BucketNotYetCreated(ManifestBucket(7))));
+        // a fresh bucket never reuses the consumed id
+        let r = s.handle_new_bucket(&mut v, src);
+        assert(r is Continue && s.bucket_live(ManifestBucket(1)) && !s.bucket_live(b));
     }
 }
 } // verus!
